@@ -431,7 +431,14 @@ fn run_solve(kv: &HashMap<String, String>) -> String {
             if sol.continuous_sol.is_some() {
                 let mut maxdev = 0.0f64;
                 let mut fails = 0usize;
-                for (ti, yi) in sol.t.iter().zip(sol.y.iter()) {
+                // every sample of a short run; of a long one (sol() scans the segments linearly) the first and last 100
+                // and every (len/200)-th in between
+                let nt = sol.t.len();
+                let stride = std::cmp::max(1, nt / 200);
+                for (idx, (ti, yi)) in sol.t.iter().zip(sol.y.iter()).enumerate() {
+                    if nt > 2000 && idx >= 100 && idx + 100 < nt && idx % stride != 0 {
+                        continue;
+                    }
                     match sol.sol(*ti) {
                         Ok(v) => {
                             for (a, b) in v.iter().zip(yi.iter()) {
